@@ -830,6 +830,61 @@ def run_cli(col, max_chunks):
                 elif any(not close(float(v), float(refa[i, j])) for i, j, v in zip(got.row_indices[:k], got.col_indices[:k], got.values[:k])):
                     col.violation(f"{PROP}|cli|reused-output|values", f"output path reused: after computing chunk {ci} of 2 for the {cfg_name} posterior samples the file still holds other values", case)
                 col.nontriv("cli", "reused-output", cfg_name, ci)
+        # the chunk files as their consumer sees them: calculate_scores is handed the files of 3 chunk jobs (one directory per job,
+        # the same file name in each) in any order, also with one listed twice, and must work on the same complete matrix as with
+        # the single-chunk file
+        from batchie.cli import calculate_scores as SCORES
+        from batchie.scoring.main import ChunkedScoresHolder
+
+        one_fn = os.path.join(tmp, "thetas_dist_all.h5")
+        job_files = []
+        for ci in range(3):
+            os.makedirs(os.path.join(tmp, f"job_{ci}"), exist_ok=True)
+            job_files.append(os.path.join(tmp, f"job_{ci}", "distance_matrix.h5"))
+        single = os.path.join(tmp, "distance_matrix_single.h5")
+        for out, n_chunks, ci in [(single, 1, 0)] + [(job_files[ci], 3, ci) for ci in range(3)]:
+            sys.argv = ["calculate_distance_matrix", "--distance-metric", "MSEDistance", "--n-chunks", str(n_chunks), "--chunk-index", str(ci),
+                        "--data", data_fn, "--thetas", one_fn, "--output", out]
+            try:
+                CLI.main()
+            finally:
+                sys.argv = argv0
+
+        def scores_with(files):
+            out = os.path.join(tmp, "consumer_scores.h5")
+            if os.path.exists(out):
+                os.unlink(out)
+            sys.argv = ["calculate_scores", "--data", data_fn, "--thetas", one_fn, "--distance-matrix", *files, "--scorer", "GaussianDBALScorer",
+                        "--n-chunks", "1", "--chunk-index", "0", "--output", out, "--seed", "3"]
+            try:
+                SCORES.main()
+            finally:
+                sys.argv = argv0
+            h = ChunkedScoresHolder.load_h5(out)
+            k = int(h.current_index)
+            order = np.argsort(np.asarray(h.plate_ids[:k]), kind="stable")
+            return np.asarray(h.plate_ids[:k])[order].tolist(), np.asarray(h.scores[:k], dtype=float)[order].tolist()
+
+        try:
+            want_scores = scores_with([single])
+        except BaseException as exc:  # noqa: BLE001
+            want_scores = None
+            col.count("consumer_reference_failed")
+        if want_scores is not None:
+            for seq in ([0, 1, 2], [2, 1, 0], [1, 2, 0], [1, 0, 2, 1], [2, 2, 0, 1]):
+                case = {"kind": "cli", "config": "consumer", "thetas": "one-file", "n_chunks": 3, "seq": seq}
+                col.evaluations += 1
+                col.states += 1
+                col.transitions += len(seq) + 1
+                try:
+                    got_scores = scores_with([job_files[ci] for ci in seq])
+                except BaseException as exc:  # noqa: BLE001
+                    col.violation(f"{PROP}|consumer|raised", f"calculate_scores given the complete chunk files job_<i>/distance_matrix.h5 in order {seq} failed: {short_exc(exc)}", case)
+                    continue
+                col.nontriv("cli", "consumer", tuple(seq))
+                col.outcome("consumer", tuple(got_scores[0]))
+                if got_scores[0] != want_scores[0] or any(not close(x, y) for x, y in zip(got_scores[1], want_scores[1])):
+                    col.violation(f"{PROP}|consumer|other-matrix", f"calculate_scores on the chunk files in order {seq} gives scores {got_scores}, on the single-chunk file {want_scores}", case)
         col.sample({"cli": {"n_thetas": 4, "configs": ["distinct", "zero-at-(2,0)"], "theta_files": ["one", "two", "two named chain_9, chain_10 (given order != sorted order)"],
                             "reference_lower_triangle_last_config": [a[i, j] for i in range(4) for j in range(i)]}})
     finally:
